@@ -108,6 +108,7 @@ func proofCheck(ck *Check) int {
 		ck.extraCov["includes_obligations_of"] = includes[own]
 	}
 	_ = P
+	ck.dischargeCovers()
 	return ck.finish("proof")
 }
 
